@@ -2,9 +2,10 @@
    Theorems about the model of C03/Model.v, whose guards, orient functions, wrapper shapes and is_valid_mec_graph guard
    selection are GENERATED from /repo on every run (Gen/Gen_Guards.v, Gen/Gen_Orient.v).  Definitions of the statements'
    vocabulary: C03/Spec.v.  Scope: the four conforming classes (PAG, CPDAG, AugmentedPAG, StationaryTimeSeriesCPDAG) and
-   histories without edge_type="all" insertions; the two exclusions are recorded known findings. *)
+   histories without edge_type="all" insertions; the two exclusions are recorded known findings.  The second half states
+   the boundary of the "all" finding (as-is machine WITH "all" insertions) and the lagged-pair orientation. *)
 From Coq Require Import List Bool.
-From PG Require Import C03.PState Gen.Gen_Guards Gen.Gen_Orient C03.Model C03.Spec C03.Proofs.
+From PG Require Import C03.PState Gen.Gen_Guards Gen.Gen_Orient C03.Model C03.Spec C03.Proofs C03.Boundary.
 Import ListNotations.
 
 (* every reachable graph has only valid pairs and is accepted by is_valid_mec_graph -- all histories, unbounded *)
@@ -99,3 +100,83 @@ Example c03_nonvacuous :
   get (run CPag ops []) (0, 1) = PS true false false false false false.
 Proof. exact Proofs.c03_nonvacuous. Qed.
 Print Assumptions c03_nonvacuous.
+
+(* ================= the as-is machine WITH edge_type="all" insertions: the boundary of the known finding ================= *)
+(* any history; what "all" can break is the validity of the pairs it names, nothing else *)
+Theorem c03_all_breaks_only_validity : forall c ops, conforming c = true ->
+  let st := run c ops [] in
+  (forall k, (forall o, In o ops -> no_all_op o = true \/ ~ In k (keys_of o)) -> valid_of c (get st k) = true) /\
+  (mec_ok c st = true <-> Inv c st) /\
+  (forall o st', match o with AddEdge _ _ _ | AddEdges _ _ | Construct _ _ _ _ => True | _ => False end ->
+                 step c st o = (st', true) -> st' = st) /\
+  (forall o k, is_construct o = false -> ~ In k (keys_of o) -> get (fst (step c st o)) k = get st k) /\
+  (forall u v st' (lagged : bool), valid_of c (get st (fst (canon u v))) = true ->
+     step c st (if lagged then OrientLag u v else Orient u v) = (st', true) -> same_graph st st') /\
+  (forall u v st' (lagged : bool), u <> v -> valid_of c (get st (fst (canon u v))) = true ->
+     step c st (if lagged then OrientLag u v else Orient u v) = (st', false) ->
+     let k := fst (canon u v) in let d := orient_step_dir c lagged (snd (canon u v)) in
+     (forall k', k' <> k -> get st' k' = get st k') /\
+     mark_v (proj c (view (get st k) d)) = Some (if pag_like c then Circle else Tail) /\
+     mark_v (proj c (view (get st' k) d)) = Some Arrow /\
+     mark_u (proj c (view (get st' k) d)) = mark_u (proj c (view (get st k) d)) /\
+     (pag_like c = true -> und (get st' k) = und (get st k))).
+Proof. exact Boundary.c03_all_breaks_only_validity. Qed.
+Print Assumptions c03_all_breaks_only_validity.
+
+(* the first contradictory graph of a history appears right after an ACCEPTED "all" insertion into a valid graph
+   (this is the harness's classification rule for the known finding) *)
+Theorem c03_first_break_is_all : forall c ops, conforming c = true -> invb c (run c ops []) = false ->
+  exists ops1 o ops2, ops = ops1 ++ o :: ops2 /\ Inv c (run c ops1 []) /\
+    no_all_op o = false /\ snd (step c (run c ops1 []) o) = false /\ invb c (run c (ops1 ++ [o]) []) = false.
+Proof. exact Boundary.c03_first_break_is_all. Qed.
+Print Assumptions c03_first_break_is_all.
+
+(* which clauses an accepted "all" insertion on a valid pair breaks *)
+Theorem c03_all_insertion_breaks : forall c s d, conforming c = true -> valid_of c s = true -> guard_of c s d EAll = false ->
+  let s' := view (insert c s d EAll) d in
+  valid_of c (insert c s d EAll) = false /\
+  dir_uv s' = true /\ und s' = true /\ dir_vu s' = dir_vu (view s d) /\ cir_vu s' = cir_vu (view s d) /\
+  (if pag_like c then bid s' && dir_uv s' = true /\ dir_uv s' && cir_uv s' = true
+   else (dir_uv s' || dir_vu s') && und s' = true).
+Proof. exact Boundary.all_insertion_breaks. Qed.
+Print Assumptions c03_all_insertion_breaks.
+
+(* what does not survive: orient on an already contradictory pair may raise after removing a mark; and with "all" plus
+   removals every one of the 64 pair states of a PAG is reachable *)
+Theorem c03_orient_nonatomic_on_contradictory :
+  let st := run CPag [AddEdge 0 1 EAll] [] in
+  snd (step CPag st (Orient 0 1)) = true /\ get (fst (step CPag st (Orient 0 1))) (0, 1) <> get st (0, 1).
+Proof. exact Boundary.orient_nonatomic_on_contradictory. Qed.
+Print Assumptions c03_orient_nonatomic_on_contradictory.
+
+Theorem c03_all_reaches_every_pair_state : forall s, get (run CPag (reach_ops s) []) (0, 1) = s.
+Proof. exact Boundary.all_reaches_every_pair_state. Qed.
+Print Assumptions c03_all_reaches_every_pair_state.
+
+(* removal drops exactly the named marks -- any class, any graph *)
+Theorem c03_remove_exact : forall c st u v et, u <> v -> supported c et = true ->
+  let k := fst (canon u v) in let d := snd (canon u v) in
+  get (fst (step c st (RemoveEdge u v et))) k = remove c (get st k) d et /\ snd (step c st (RemoveEdge u v et)) = false.
+Proof. exact Boundary.remove_exact. Qed.
+Print Assumptions c03_remove_exact.
+
+(* ================= lagged pairs of the time-series classes (lagswap = true instance of the generated orient) ================= *)
+(* orient_uncertain_edge(u, v) with u LATER than v: StationaryTimeSeriesCPDAG orients forward in time, i.e. acts as the call
+   (v, u); the classes without lags ignore the parameter.  c03_all_breaks_only_validity clauses 5-6 cover OrientLag. *)
+Theorem c03_orient_lag_reversed :
+  forall c s d, conforming c = true -> orient_lag_of c s d = orient_of c s (lag_dir c d).
+Proof. exact Proofs.orient_lag_reversed. Qed.
+Print Assumptions c03_orient_lag_reversed.
+
+(* StationaryTimeSeriesPAG as it is (known finding, outside the other theorems): without a circle mark from the later to
+   the earlier node -- which its layers never hold -- the lagged call raises and changes nothing *)
+Theorem c03_tspag_lag_raises : forall s d, cir_uv (view s d) = false -> orient_lag_of CTsPag s d = (s, true).
+Proof. exact Proofs.tspag_lag_raises. Qed.
+Print Assumptions c03_tspag_lag_raises.
+
+(* the suppressed class "StationaryTimeSeriesPAG: no insertion guard" is exactly this machine (pinned on the generated text) *)
+Theorem c03_tspag_asis_pinned :
+  wrap_tspag = {| w_guard := GNone; w_bulk := BulkUnguarded |} /\
+  forall s d, orient_tspag false s d = orient_tspag_asis s d.
+Proof. exact Proofs.tspag_asis_pinned. Qed.
+Print Assumptions c03_tspag_asis_pinned.
